@@ -144,6 +144,57 @@ func c07Forced(kind string, rng *Rng) {
 		_ = cur
 		nontrivial(kind + "|slow-reader-" + second)
 	}
+	// (3) fs backends: a slow upload of a key below K overlaps an upload of K itself (an object and
+	// something below it cannot both be stored: one of the two is refused, whichever it is, and
+	// every upload that was acknowledged is there afterwards)
+	if kind != "mem" && kind != "bolt" {
+		for i, pair := range [][2]string{{"nest/leaf", "nest"}, {"top", "top/below"}} {
+			slowKey, fastKey := pair[0], pair[1]
+			slowBody, fastBody := []byte(fmt.Sprintf("slow-%d", i)), []byte(fmt.Sprintf("fast-%d", i))
+			gr := &gatedReader{data: append([]byte{}, slowBody...), entered: make(chan struct{}), release: make(chan struct{})}
+			done := make(chan Resp, 1)
+			go func() {
+				done <- do(s.h, Req{Method: "PUT", Path: "/" + b + "/" + slowKey, Reader: gr, Header: [][2]string{{"Content-Length", strconv.Itoa(len(slowBody))}}})
+			}()
+			if !waitOr(gr.entered, 5*time.Second) {
+				emit("c07", "HANG", hs("PUT never started reading its body"))
+				break
+			}
+			rf, hung := doDeadline(s.h, Req{Method: "PUT", Path: "/" + b + "/" + fastKey, Body: fastBody}, 5*time.Second)
+			close(gr.release)
+			var rs Resp
+			select {
+			case rs = <-done:
+			case <-time.After(5 * time.Second):
+				hung = true
+			}
+			if hung {
+				emit("c07", "HANG", hs("overlapping uploads of a key and of a key below it do not both complete"))
+				break
+			}
+			emit("c07", "NOMODEL")
+			for _, kv := range []struct {
+				key  string
+				body []byte
+				r    Resp
+			}{{slowKey, slowBody, rs}, {fastKey, fastBody, rf}} {
+				g := do(s.h, Req{Method: "GET", Path: "/" + b + "/" + kv.key})
+				switch {
+				case kv.r.Status == 200 && (g.Status != 200 || string(g.Body) != string(kv.body)):
+					emit("c07", "BAD", hs(fmt.Sprintf("%s: PUT %s was acknowledged (200) while a PUT of %s overlapped it, but GET answers %d %q", kind, kv.key, map[bool]string{true: fastKey, false: slowKey}[kv.key == slowKey], g.Status, truncate(g.Body, 40))))
+				case kv.r.Status != 200 && g.Status == 200:
+					emit("c07", "BAD", hs(fmt.Sprintf("%s: PUT %s was refused (%d) but the key is served", kind, kv.key, kv.r.Status)))
+				default:
+					emit("c07", "GOOD", hs("overlapping nested uploads: "+kv.key))
+				}
+			}
+			lr := do(s.h, Req{Method: "GET", Path: "/" + b})
+			if lr.Status != 200 {
+				emit("c07", "BAD", hs(fmt.Sprintf("%s: the bucket cannot be listed after overlapping nested uploads (%d)", kind, lr.Status)))
+			}
+			nontrivial(kind + "|nested-overlap|" + slowKey)
+		}
+	}
 	s.end()
 }
 
@@ -331,7 +382,7 @@ func runC07(tier string, seed uint64) {
 			c07MultipartRounds(kind, rng, rounds)
 		}
 	}
-	sample("forced interleavings on every backend: a PUT whose body reader is gated (slow uploader) while a GET of the same key, a PUT of another key and a listing by other clients must complete and see the old object; a GET whose ResponseWriter is gated (slow reader) overlapped by an overwrite and by a delete of the same key — the download must deliver in full the object it captured")
+	sample("forced interleavings on every backend: a PUT whose body reader is gated (slow uploader) while a GET of the same key, a PUT of another key and a listing by other clients must complete and see the old object; a GET whose ResponseWriter is gated (slow reader) overlapped by an overwrite and by a delete of the same key — the download must deliver in full the object it captured; on the fs backends a slow upload of K/x overlapped by an upload of K (and the other way round): every acknowledged upload is served afterwards")
 	sample("16 clients x 40 simultaneous versioned PUTs (two thirds on one hot key) on the memory backend: every acknowledged upload has a version id of its own under which exactly its bytes are served; the same workload (reduced) runs in a binary built with -race, whose reports on gofakes3 code are violations")
 	sample("multipart: the backend write of a CompleteMultipartUpload is held open while a part upload, a second complete, an abort and a part listing of the same upload arrive (both must finish; responses must have a sequential explanation); rounds of 2..5 simultaneous part uploads / completes / aborts / part listings / reads over 2..3 pending uploads on 1..2 keys, searched for a sequential order on the model")
 	sample("rounds of 2, 4, 6 and 16 simultaneous requests (put with unique bodies / get / head / delete / copy over 1..4 keys; memory backend also with versioning enabled): a round is accepted iff some sequential order of its requests reproduces every observed response (status, body, ETag, length, version id) on the model — searched per key for single-key rounds, over all permutations for rounds with a copy")
